@@ -107,13 +107,29 @@ func RunUnits(units []Unit, o Options) ([]UnitResult, error) {
 	}
 	res := make([]UnitResult, len(units))
 	var ok []int
-	for i := range units {
-		_, err := CompileXGo(o.FileName, Source(units, []int{i}, o, true), nil)
-		if err != nil {
-			res[i].CompileErr = firstLines(err.Error(), 3)
+	// compile status per unit: a chunk that compiles as a whole proves each member compiles
+	// (units are independent functions); only members of a failing chunk are compiled alone.
+	for start := 0; start < len(units); start += o.PerProgram {
+		end := start + o.PerProgram
+		if end > len(units) {
+			end = len(units)
+		}
+		idx := make([]int, 0, end-start)
+		for i := start; i < end; i++ {
+			idx = append(idx, i)
+		}
+		if _, err := CompileXGo(o.FileName, Source(units, idx, o, true), nil); err == nil {
+			ok = append(ok, idx...)
 			continue
 		}
-		ok = append(ok, i)
+		for _, i := range idx {
+			_, err := CompileXGo(o.FileName, Source(units, []int{i}, o, true), nil)
+			if err != nil {
+				res[i].CompileErr = firstLines(err.Error(), 3)
+				continue
+			}
+			ok = append(ok, i)
+		}
 	}
 	s, err := NewScratch()
 	if err != nil {
